@@ -85,44 +85,62 @@ theorem loadCleanup_keeps (o : Opts) (m : Nat) (fs : FS) : Keeps fs (loadCleanup
     exact ⟨a, b m (by omega)⟩
   · exact ⟨Keeps.refl fs, rfl⟩
 
-/-- `os.OpenFile(dat_fname(m), O_RDWR|O_CREATE)` in LoadBlockIndex, with the ghost bookkeeping of the model -/
-def createCur (fs : FS) (m : Nat) : FS :=
-  match AL.get fs.dats m with
-  | some _ => fs
-  | none => { fs with dats := AL.set fs.dats m [],
-                      lost := if (AL.get fs.olds m).isSome then m :: fs.lost else fs.lost }
-
 theorem createCur_keeps (fs : FS) (m : Nat) : Keeps fs (createCur fs m) ∧ ∃ f, AL.get (createCur fs m).dats m = some f := by
   unfold createCur
   split
   · rename_i f hf; exact ⟨Keeps.refl fs, f, hf⟩
   · rename_i hn
-    refine ⟨?_, [], by simp only [AL.get_set, ↓reduceIte]⟩
-    intro j hj
-    simp only at hj
-    by_cases e : m = j
-    · subst e
-      cases ho : AL.get fs.olds m with
-      | some x => simp [ho] at hj
-      | none =>
-        simp only [ho, Option.isSome_none, Bool.false_eq_true, ↓reduceIte] at hj
-        refine ⟨hj, ?_⟩
-        intro file hf
-        rw [fileOf_none fs m hn, ho] at hf; cases hf
-    · have hl : fs.lost.contains j = false := by
-        split at hj
-        · simp only [List.contains_cons, Bool.or_eq_false_iff] at hj; exact hj.2
-        · exact hj
-      refine ⟨hl, ?_⟩
+    split
+    · -- os.Rename(oldat/m, main/m): `fileOf` resolves m to the same bytes, nothing is lost
+      rename_i content hc
+      have ho : AL.get fs.olds m = some content := by
+        split at hc
+        · exact hc
+        · cases hc
+      refine ⟨?_, content, by simp only [AL.get_set, ↓reduceIte]⟩
+      intro j hj
+      refine ⟨hj, ?_⟩
       intro file hf
       unfold fileOf at *
-      simp only [AL.get_set, e, ↓reduceIte]; exact hf
+      simp only [AL.get_set, AL.get_del]
+      by_cases e : m = j
+      · subst e
+        rw [hn, ho] at hf
+        simp only [↓reduceIte]; exact hf
+      · simp only [e, ↓reduceIte]; exact hf
+    · refine ⟨?_, [], by simp only [AL.get_set, ↓reduceIte]⟩
+      intro j hj
+      simp only at hj
+      by_cases e : m = j
+      · subst e
+        cases ho : AL.get fs.olds m with
+        | some x => simp [ho] at hj
+        | none =>
+          simp only [ho, Option.isSome_none, Bool.false_eq_true, ↓reduceIte] at hj
+          refine ⟨hj, ?_⟩
+          intro file hf
+          rw [fileOf_none fs m hn, ho] at hf; cases hf
+      · have hl : fs.lost.contains j = false := by
+          split at hj
+          · simp only [List.contains_cons, Bool.or_eq_false_iff] at hj; exact hj.2
+          · exact hj
+        refine ⟨hl, ?_⟩
+        intro file hf
+        unfold fileOf at *
+        simp only [AL.get_set, e, ↓reduceIte]; exact hf
+
+/-- with an empty oldat/ the opening neither loses nor moves anything (whatever `restoresBackup` is) -/
+theorem createCur_noolds (fs : FS) (m : Nat) (h2 : fs.olds = []) :
+    (createCur fs m).lost = fs.lost ∧ (createCur fs m).olds = [] := by
+  unfold createCur
+  split
+  · exact ⟨rfl, h2⟩
+  · simp only [h2, AL.get, ite_self, Option.isSome_none, Bool.false_eq_true, ↓reduceIte, and_self]
 
 theorem reopen_fs (env : Env) (fs : FS) (o : Opts) :
     (reopen env fs o).1.fs = loadCleanup (if o.maxCached = 0 then { o with maxCached := 100 } else o)
       (loadLoop env (fs.idx.length / RECSIZE + 1) fs.idx {}).maxdatfileidx
       (createCur fs (loadLoop env (fs.idx.length / RECSIZE + 1) fs.idx {}).maxdatfileidx) := by
-  unfold reopen createCur
-  simp only
-  split <;> rfl
+  unfold reopen
+  rfl
 end GocoinV.BlockDB
